@@ -258,10 +258,17 @@ fn env_step(
     if plan.interrupts.contains(&step) {
         // What the Ctrl-C handler does: set the shared flag.
         session.interrupted.store(true, Ordering::SeqCst);
+        let frames: Vec<String> = env
+            .stack
+            .0
+            .iter()
+            .map(|f| format!("{}", f.enclosing_name))
+            .collect();
         env_log(&format!(
-            "fired interrupt@{step} frame={} depth={}",
+            "fired interrupt@{step} frame={} depth={} stack={}",
             env.top_frame_name(),
-            env.stack.0.len()
+            env.stack.0.len(),
+            frames.join(" > ")
         ));
     }
     if plan.monitor {
